@@ -86,20 +86,21 @@ type Scenario struct {
 
 // Result summarises one scenario's exploration.
 type Result struct {
-	Scenario    string
-	Evaluations int
-	States      int
-	Transitions int
-	DepthDone   int
-	Exhaustive  bool
-	CapHit      string
-	Validated   int // distinct states whose shortest trace was replayed on a fresh instance
-	Audited     int // canonical-key collisions audited (differential successors)
-	Violations  []Violation
-	Cover       map[string]int
-	Samples     [][]string
-	Vacuous     []string
-	WallS       float64
+	Scenario                       string
+	Evaluations                    int
+	States                         int
+	Transitions                    int
+	DepthDone                      int
+	Exhaustive                     bool
+	CapHit                         string
+	Validated                      int // distinct states whose shortest trace was replayed on a fresh instance
+	Audited                        int // canonical-key collisions audited (differential successors)
+	AuditActions, AuditKeyMismatch int // actions compared; of those, how many led to successors with different canonical keys (over-fine key or ordering)
+	Violations                     []Violation
+	Cover                          map[string]int
+	Samples                        [][]string
+	Vacuous                        []string
+	WallS                          float64
 }
 
 type node struct {
@@ -196,9 +197,12 @@ outer:
 				if seen[k] && res.Audited < audits {
 					if w1 := firstWorld[k]; w1 != nil {
 						res.Audited++
-						if d := auditPair(sc, st, sat, w1, w2); d != "" {
-							report(Violation{Rule: "harness/canonical-abstraction", Detail: "two concrete states with the same canonical key have different futures (" + d + "); first reached by " + strings.Join(firstPath[k], " ; ")}, full)
+						d, soft := auditPair(sc, st, sat, w1, w2)
+						if d != "" {
+							report(Violation{Rule: "harness/canonical-abstraction", Detail: "two concrete states with the same canonical key answer the same request differently (" + d + "); first reached by " + strings.Join(firstPath[k], " ; ")}, full)
 						}
+						res.AuditActions += soft >> 16
+						res.AuditKeyMismatch += soft & 0xffff
 						delete(firstWorld, k)
 					}
 				}
@@ -268,14 +272,15 @@ outer:
 
 // auditPair runs the whole menu from two concrete worlds that share a canonical
 // key and compares response classes and canonical successors.
-func auditPair(sc Scenario, st *world.Stack, sat time.Duration, w1, w2 *world.World) string {
+func auditPair(sc Scenario, st *world.Stack, sat time.Duration, w1, w2 *world.World) (string, int) {
 	a1, a2 := sc.Actions(st, w1), sc.Actions(st, w2)
 	if len(a1) != len(a2) {
-		return fmt.Sprintf("menus differ in size: %d vs %d", len(a1), len(a2))
+		return fmt.Sprintf("menus differ in size: %d vs %d", len(a1), len(a2)), 0
 	}
+	compared, mismatched := 0, 0
 	for i := range a1 {
 		if a1[i].Name != a2[i].Name {
-			return "menus differ: " + a1[i].Name + " vs " + a2[i].Name
+			return "menus differ: " + a1[i].Name + " vs " + a2[i].Name, 0
 		}
 		c1, c2 := w1.Clone(), w2.Clone()
 		o1 := a1[i].Run(st, c1)
@@ -285,16 +290,34 @@ func auditPair(sc Scenario, st *world.Stack, sat time.Duration, w1, w2 *world.Wo
 			sc.Model(&Step{S: st, Pre: w2, Act: a2[i], Obs: o2, Post: c2, Report: func(Violation) {}, Count: func(int, string) {}})
 		}
 		if (o1 == nil) != (o2 == nil) {
-			return "action " + a1[i].Name + ": one is a request, the other is not"
+			return "action " + a1[i].Name + ": one is a request, the other is not", 0
 		}
-		if o1 != nil && (o1.Status != o2.Status || (o1.Location == "") != (o2.Location == "") || (o1.Panic == "") != (o2.Panic == "")) {
-			return fmt.Sprintf("action %s: responses differ (%d %q vs %d %q)", a1[i].Name, o1.Status, o1.Location, o2.Status, o2.Location)
+		// hard requirement: the two concrete states answer alike (status, redirect or not, panic or
+		// not, session user and the set of session / cookie keys afterwards)
+		if o1 != nil {
+			if o1.Status != o2.Status || (o1.Location == "") != (o2.Location == "") || (o1.Panic == "") != (o2.Panic == "") ||
+				o1.UIDAfter() != o2.UIDAfter() || keySet(o1.SessAfter) != keySet(o2.SessAfter) || keySet(o1.CookAfter) != keySet(o2.CookAfter) {
+				return fmt.Sprintf("action %s: %d %q uid=%q sess=%s  vs  %d %q uid=%q sess=%s", a1[i].Name, o1.Status, o1.Location, o1.UIDAfter(), keySet(o1.SessAfter), o2.Status, o2.Location, o2.UIDAfter(), keySet(o2.SessAfter)), 0
+			}
 		}
+		compared++
+		// informational: canonical successors that differ mean the key is over-fine here (e.g. the
+		// order in which equivalent random values were first seen), or - if the answers above
+		// had differed - unsound
 		if k1, k2 := hashKey(c1.Canon(sat)), hashKey(c2.Canon(sat)); k1 != k2 {
-			return "action " + a1[i].Name + ": canonical successors differ"
+			mismatched++
 		}
 	}
-	return ""
+	return "", compared<<16 | (mismatched & 0xffff)
+}
+
+func keySet(m map[string]string) string {
+	ks := make([]string, 0, len(m))
+	for k := range m {
+		ks = append(ks, k)
+	}
+	sort.Strings(ks)
+	return strings.Join(ks, ",")
 }
 
 // Replay executes a trace of action names from the scenario's initial state on
